@@ -16,10 +16,14 @@ why_missed = {
  'C03-B': 'value-level: the emitted Java counts UTF-16 chars instead of UTF-8 bytes; every dependence the matrix demands is still present (the generator still consumes prefix type and byte order)',
  'C04-A': 'value-level: the emitted Python arithmetic subtracts the wrong marker; dependences on byte order and length-field type are intact',
  'C05-A': 'value-level: a different column of the same C++ table row (promoted int instead of exact-width type) is emitted as the factory key type',
- 'C06-A': 'value-level: one of two emitted C++ writes (the no-service fallback) lost its byte-order variant while the other kept it; cell-level dependence is still satisfied',
  'C09-A': 'value-level arithmetic in formatStringList (row count off by one for exact multiples): no structural rule; the formatted text no longer parses',
  'C15-A': 'emitted-Lua ordering (a local function is emitted after its caller): a dataflow property of the emitted program, declined in DESIGN.md section 4',
  'C17-A': 'value-level: order of two sample-value lookups in the Rust test emitter; emitted sample has the wrong length',
+ 'C01-Br2': 'value-level: the emitted Java puts String.length() (UTF-16 units) in the prefix instead of the UTF-8 byte count; no Go-side structure changes',
+ 'C03-Br2': 'value-level: same Java String.length() change as C01-Br2 / C03-B',
+ 'C04-Ar2': 'value-level: emitted Python arithmetic measures from the end of the length slot instead of from the start of the target',
+ 'C08-Br2': 'SUPERSEDED: the change only had an effect through the bare-space pad default, a genuine defect of the pinned tree that is now fixed in /repo (f986813); C12/option-table "pad character constant ... is a quoted spelling" reports the root cause on the unfixed tree with or without this change',
+ 'C15-Ar2': 'emitted-Lua naming: dissectors de-duplicated by function name conflate distinct inline objects of the same name; needs the set of inline-object names, a model-level fact',
  'C17-B': 'emitted-Java import list: an `import java.util.Arrays` became conditional; needs a Java front end',
 }
 rows = []
@@ -31,6 +35,7 @@ for name in sorted(res):
     meta = json.load(open(mp))
     rules = sorted({f.split(' ')[0] for f in res[name]['findings']})
     meta['detected'] = res[name]['status'] == 'DETECTED'
+    meta['status_on_current_repo'] = res[name]['status']
     meta['detected_by_rules'] = rules
     meta['findings_on_seeded_tree'] = res[name]['findings'][:6]
     if not meta['detected']:
